@@ -11,7 +11,7 @@ from baize.datastructures import UploadFile
 from baize.multipart import Data, Epilogue, Field, File, MultipartDecoder, NeedData, Preamble
 from baize.multipart_helper import parse_async_stream, parse_stream
 
-from harness import core, gateways as gw, gen
+from harness import core, gateways as gw, gen, x_c01 as x
 from harness.core import Result
 from harness.refs import multipart as ref
 
@@ -26,10 +26,25 @@ RULES = {
     "prefix of the delimiter (every such form is cut inside each delimiter and after each CR by the single-cut class)",
     "tiny": "exhaustive: ALL 2^(n-1) partitions of tiny bodies (n <= 13 after the fixed header block is treated as one atom) for a set "
     "of hand-picked hostile contents",
+    "syntax": "enumerated: the same three-part form written in every equally well-formed spelling of the part headers (no blank / two blanks / "
+    "tab after ';' and ':', upper-case and title-case parameter names and disposition type, filename before name, token instead of "
+    "quoted values, further disposition parameters, Content-Disposition not the first header line, header lines folded with blank, tab, "
+    "several blanks, several folds), 22 special names/filenames (upper case, slashes, decomposed and compatibility characters, the "
+    "delimiter text itself, NUL, 5 000 and 70 000 characters), 8 spellings of the request Content-Type x 3 charsets x 3 boundaries, and "
+    "request variants (Content-Length present / absent / chunked transfer, request.body read before request.form, ASGI messages without "
+    "the optional keys) x {whole, bytewise, 3- and 7-byte chunks, every single cut inside a header block} x the observers",
+    "align": "enumerated: boundary length 1..70 (quick: 18 lengths incl. 60..70) x 2-4 alphabets x transport padding of 0, 1, 5, 9, 17 blanks/tabs "
+    "x content that ends in the delimiter minus its last byte / plain / look-alike lines; cut at EVERY offset within 3 bytes of a "
+    "delimiter, adjacent pairs of such cuts, bytewise and whole",
+    "big": "enumerated: bodies of 80 KiB .. 2 MiB (a delimiter followed by more than 64 KiB of another part in one chunk, text fields of 600 kB "
+    "and 1.2 MB, files larger than the 1 MiB in-memory limit of the upload file with hostile pieces around the limit) x {whole, 64 KiB, "
+    "odd sizes, cuts around the limit} x 5 observers (the async ones on a real event loop, because a rolled-over file is written in a thread)",
 }
 ASSUMPTIONS = [
     "Epilogue.data may start with the line break that followed the close delimiter; how Data events are split is free",
-    "names/filenames contain no quote, backslash or line break; charsets are ASCII-compatible; folded header lines use a space",
+    "names/filenames contain no quote, backslash or line break; charsets are ASCII-compatible",
+    "a folded header line denotes white space: header values are compared after unfolding with every run of blanks/tabs reduced to one blank",
+    "forms have at most a few parts (the default max_form_parts of the helpers is 324: larger forms belong to C15)",
 ]
 
 
@@ -54,8 +69,10 @@ def norm_items(items):
     return out
 
 
-def observe_events(form, chunks):
-    """Observer 1: event-level decoder."""
+def observe_events(form, chunks, mode="drain"):
+    """Observer 1: event-level decoder.  mode: drain = events drained after each chunk; lazy = every chunk and the
+    end-of-input mark are handed over before the first event is asked for; step = ONE next_event() call per chunk,
+    the rest is drained at the end."""
     dec = MultipartDecoder(form["boundary"].encode("ascii"), form["charset"])
     events = []
 
@@ -71,7 +88,14 @@ def observe_events(form, chunks):
     done = False
     for c in chunks:
         dec.receive_data(c)
-        if not done:
+        if done or mode == "lazy":
+            continue
+        if mode == "step":
+            ev = dec.next_event()
+            if not isinstance(ev, NeedData):
+                events.append(ev)
+                done = isinstance(ev, Epilogue)
+        else:
             done = drain()
     if not done:
         dec.receive_data(None)
@@ -103,7 +127,11 @@ def items_from_events(form, events):
             if not ev.more_data:
                 head, data = cur
                 if isinstance(head, Field):
-                    items.append(("field", head.name, bytes(data).decode(cs)))
+                    try:
+                        text = bytes(data).decode(cs)
+                    except UnicodeDecodeError:  # e.g. a file part announced as a field: keep the bytes, they equal no expected text
+                        text = bytes(data)
+                    items.append(("field", head.name, text))
                 else:
                     hdrs = {k.lower(): v for k, v in head.headers.items()}
                     items.append(("file", head.name, head.filename, hdrs, hdrs.get("content-type", ""), bytes(data)))
@@ -117,20 +145,18 @@ def items_from_events(form, events):
     return events[0].data, items, epi, problems
 
 
-def content_type_header(form):
-    b = form["boundary"]
-    needs_quote = any(ch in b for ch in " ()/:=?,'") or True
-    val = f'multipart/form-data; boundary="{b}"' if needs_quote else f"multipart/form-data; boundary={b}"
-    if form["charset"] != "utf-8":
-        val += f"; charset={form['charset']}"
-    return val
-
-
-def observe(form, body, chunks, which):
+def observe(form, body, chunks, which, rq=None, real_loop=False):
+    """rq (request-level observers only): {"ct": spelling of the Content-Type header, "length": present|absent|chunked,
+    "body_first": request.body is read before request.form, "asgi_keys": full|minimal (optional message keys left out)}."""
     boundary = form["boundary"].encode("ascii")
     cs = form["charset"]
+    rq = rq or {}
     if which == "events":
         return observe_events(form, chunks)
+    if which == "events-lazy":
+        return observe_events(form, chunks, "lazy")
+    if which == "events-step":
+        return observe_events(form, chunks, "step")
     if which == "sync":
         return norm_items(parse_stream(iter(chunks), boundary, cs, file_factory=UploadFile))
     if which == "async":
@@ -139,18 +165,33 @@ def observe(form, body, chunks, which):
             for c in chunks:
                 yield c
 
-        return norm_items(drive(parse_async_stream(stream(), boundary, cs, file_factory=UploadFile)))
-    rq = gw.areq(method="POST", headers=[["Content-Type", content_type_header(form)], ["Content-Length", str(len(body))]], body=chunks)
+        coro = parse_async_stream(stream(), boundary, cs, file_factory=UploadFile)
+        # an upload file that has rolled over to disk is written in a worker thread: that needs a running loop
+        return norm_items(gw.run_sync(coro, 600.0) if real_loop else drive(coro))
+    rqd = gw.areq(method="POST", headers=x.request_headers(form, len(body), rq), body=chunks)
     if which == "wsgi":
-        req = bwsgi.Request(gw.make_environ(rq))
+        req = bwsgi.Request(gw.make_environ(rqd))
+        if rq.get("body_first"):
+            req.body
         form_data = req.form
         return norm_items(form_data.multi_items())
     if which == "asgi":
+        minimal = rq.get("asgi_keys") == "minimal"
 
         async def go():
-            script = [{"type": "http.request", "body": c, "more_body": i < len(chunks) - 1} for i, c in enumerate(chunks)] or [
-                {"type": "http.request", "body": b"", "more_body": False}
-            ]
+            script = []
+            for i, c in enumerate(chunks):
+                m = {"type": "http.request"}
+                last = i == len(chunks) - 1
+                if c or not minimal:
+                    m["body"] = c
+                if not last:
+                    m["more_body"] = True
+                elif not minimal:
+                    m["more_body"] = False
+                script.append(m)
+            if not script:
+                script = [{"type": "http.request"} if minimal else {"type": "http.request", "body": b"", "more_body": False}]
             pos = 0
 
             async def receive():
@@ -161,11 +202,13 @@ def observe(form, body, chunks, which):
                 pos += 1
                 return dict(m)
 
-            req = basgi.Request(gw.make_scope(rq), receive)
+            req = basgi.Request(gw.make_scope(rqd), receive)
+            if rq.get("body_first"):
+                await req.body
             form_data = await req.form
             return form_data.multi_items()
 
-        return norm_items(gw.run_sync(go()))
+        return norm_items(gw.run_sync(go(), 600.0))
     raise core.HarnessError(which)
 
 
@@ -184,73 +227,108 @@ def partitions_for(form, body, drawn_cuts):
         offs = sorted({offs[int(i * step)] for i in range(24)})
     for a, b in itertools.combinations(offs, 2):
         yield "pair", [a, b]
+    if n <= 2000:
+        yield "uniform", list(range(3, n, 3))
     cuts = sorted(min(c, n) for c in drawn_cuts)
     yield "drawn", cuts
 
 
-def check_one(r, form, body, expected, label, cuts, which):
+def _short(body):
+    return repr(body) if len(body) <= 1200 else f"{body[:500]!r} ... ({len(body)} bytes) ... {body[-300:]!r}"
+
+
+def check_one(r, form, body, expected, label, cuts, which, rq=None, real_loop=False, ctx=None):
     chunks = ref.chunks_from_cuts(body, cuts)
     if which == "wsgi":
         chunks = [c for c in chunks if c]  # an empty read means EOF on wsgi.input
+    what = which + ("" if not rq else "+" + ",".join(f"{k}={v}" for k, v in sorted(rq.items())))
+    ctx = ctx if ctx is not None else f"body {_short(body)}"
     try:
-        obs = observe(form, body, chunks, which)
+        obs = observe(form, body, chunks, which, rq, real_loop)
     except core.HarnessError:
         raise
     except Exception as exc:  # noqa: BLE001
         r.fail(
             f"C01:{which}:raised:{type(exc).__name__}",
-            f"boundary {form['boundary']!r} body {body!r} cuts {cuts[:12]!r} ({label}): {type(exc).__name__}: {exc}",
+            f"boundary {form['boundary']!r} {ctx} cuts {cuts[:12]!r} ({label}, {what}): {type(exc).__name__}: {exc}",
         )
         return False
-    if which == "events":
+    if which.startswith("events"):
         pre, items, epi, problems = items_from_events(form, obs)
         for p in problems:
-            r.fail("C01:events:sequence", f"body {body!r} cuts {cuts[:12]!r} ({label}): {p}")
+            r.fail("C01:events:sequence", f"{ctx} cuts {cuts[:12]!r} ({label}, {what}): {p}")
         want_pre = form["preamble"] if form["preamble"] is not None else b""
         if not problems and pre != want_pre:
-            r.fail("C01:events:preamble", f"body {body!r} cuts {cuts[:12]!r} ({label}): Preamble {pre!r}, expected {want_pre!r}")
+            r.fail("C01:events:preamble", f"{ctx} cuts {cuts[:12]!r} ({label}, {what}): Preamble {pre!r}, expected {want_pre!r}")
         want_epi = form["epilogue"] if form["epilogue"] is not None else b""
         # the epilogue is not a part: transport padding / the line break after the close delimiter may
         # end up in front of it, depending on where the cuts fall
         if not problems and not (epi is not None and epi.endswith(want_epi) and epi[: len(epi) - len(want_epi)].strip(b" \t\r\n") == b""):
-            r.fail("C01:events:epilogue", f"body {body!r} cuts {cuts[:12]!r} ({label}): Epilogue {epi!r}, expected {want_epi!r}")
+            r.fail("C01:events:epilogue", f"{ctx} cuts {cuts[:12]!r} ({label}, {what}): Epilogue {epi!r}, expected {want_epi!r}")
     else:
         items = obs
+    items = x.canon_items(items)
     if items != expected:
         # name the first difference
         diff = "length"
         for i, (a, b) in enumerate(zip(items, expected)):
             if a != b:
-                diff = f"item {i}: got {a!r}, expected {b!r}"
+                diff = f"item {i}: got {_brief(a)}, expected {_brief(b)}"
                 break
         else:
             diff = f"{len(items)} items, expected {len(expected)}"
         kind = "content"
         r.fail(
             f"C01:{which}:{kind}",
-            f"boundary {form['boundary']!r} charset {form['charset']} cuts {cuts[:12]!r} ({label}): {diff}; body {body!r}",
+            f"boundary {form['boundary']!r} charset {form['charset']} cuts {cuts[:12]!r} ({label}, {what}): {diff}; {ctx}",
         )
         return False
     return True
 
 
+def _brief(item):
+    """An item with over-long strings / byte strings abbreviated (where they first differ is what matters)."""
+
+    def cut(v):
+        if isinstance(v, (bytes, str)) and len(v) > 300:
+            return v[:120] + (b" ... " if isinstance(v, bytes) else " ... ") + v[-120:]
+        if isinstance(v, dict):
+            return {k: cut(w) for k, w in v.items()}
+        return v
+
+    return repr(tuple(cut(v) for v in item)) + (f" (lengths {[len(v) for v in item if isinstance(v, (bytes, str))]})" if any(isinstance(v, (bytes, str)) and len(v) > 300 for v in item) else "")
+
+
+# request-level variants that every form is run through once (whole body): the way the length is announced, reading
+# request.body before request.form, ASGI messages that leave out their optional keys
+WSGI_MODES = [{"length": "absent"}, {"length": "chunked"}, {"body_first": True}]
+ASGI_MODES = [{"asgi_keys": "minimal"}, {"body_first": True}, {"length": "absent", "asgi_keys": "minimal"}]
+
+
 def oracle(case) -> Result:
     r = Result()
     form = case["form"]
-    body = ref.encode(form)
-    expected = ref.expected_items(form)
+    rq = case.get("rq") or None
+    body = x.encode(form)
+    expected = x.expected_items(form)
     runs = 0
     budget_expensive = {"whole", "bytewise", "drawn"}
     singles_for_expensive = set(ref.interesting_offsets(body, form["boundary"].encode("ascii"))[:: max(1, len(body) // 40)][:6])
     for label, cuts in partitions_for(form, body, case.get("cuts", [])):
-        observers = ["events", "sync"]
+        observers = [("events", None), ("sync", None)]
         if label in budget_expensive or (label == "single" and cuts[0] in singles_for_expensive):
-            observers += ["async", "wsgi", "asgi"]
+            observers += [("async", None), ("wsgi", rq), ("asgi", rq)]
         elif label == "single" and cuts[0] % 7 == 0:
-            observers += ["async"]
-        for which in observers:
+            observers += [("async", None)]
+        elif label == "uniform":
+            observers += [("async", None)]
+        if label in ("bytewise", "drawn"):
+            observers += [("events-lazy", None), ("events-step", None)]
+        if label == "whole":
+            observers += [("wsgi", dict(rq or {}, **m)) for m in WSGI_MODES] + [("asgi", dict(rq or {}, **m)) for m in ASGI_MODES]
+        for which, orq in observers:
             runs += 1
-            ok = check_one(r, form, body, expected, label, cuts, which)
+            ok = check_one(r, form, body, expected, label, cuts, which, orq)
             if not ok and len(r.failures) >= 3:
                 break
         if len(r.failures) >= 3:
@@ -269,6 +347,8 @@ def oracle(case) -> Result:
             r.label("content-ends-with-CRLF")
         if b"--" + form["boundary"].encode("ascii")[:-1] in c:
             r.label("lookalike-boundary")
+        if p.get("sx"):
+            r.label("alternative-header-spelling")
     kinds = {"file" if p.get("filename") is not None else "field" for p in form["parts"]}
     r.label(f"parts={len(form['parts'])}", "mix" if len(kinds) == 2 else (next(iter(kinds)) if kinds else "empty-form"))
     if form["preamble"] is not None:
@@ -279,6 +359,8 @@ def oracle(case) -> Result:
         r.label("transport-padding")
     if case.get("cuts") and len(set(case["cuts"])) < len(case["cuts"]):
         r.label("empty-chunk")
+    if rq:
+        r.label("request-variant")
     r.label(f"charset={form['charset']}", f"blen={min(len(form['boundary']), 5)}")
     r.nontrivial = hostile
     if hostile:
@@ -290,20 +372,10 @@ def oracle_tiny(case) -> Result:
     """All 2^(n-1) partitions of a tiny body; the fixed header block is one atom."""
     r = Result()
     form = case["form"]
-    body = ref.encode(form)
-    expected = ref.expected_items(form)
+    body = x.encode(form)
+    expected = x.expected_items(form)
     # atoms: header blocks are not cut
-    marks = []
-    pos = 0
-    atoms = []
-    bnd = form["boundary"].encode("ascii")
-    idx = 0
-    hdr_spans = []
-    for part in form["parts"]:
-        hb = ref.part_header_block(part, form["charset"])
-        at = body.find(hb, idx)
-        hdr_spans.append((at, at + len(hb)))
-        idx = at + len(hb)
+    hdr_spans = x.header_spans(form, body)
     allowed = [i for i in range(1, len(body)) if not any(s < i < e for s, e in hdr_spans)]
     if len(allowed) > case.get("max_bits", 13):
         allowed = allowed[-case.get("max_bits", 13):]
@@ -318,15 +390,174 @@ def oracle_tiny(case) -> Result:
     r.weight = runs
     r.nontrivial = True
     r.label(f"bits={len(allowed)}")
-    _ = (marks, pos, atoms, bnd)
     return r
 
 
-SUBS = {"forms": oracle, "tiny": oracle_tiny}
+ALL_OBSERVERS = ["events", "events-lazy", "events-step", "sync", "async", "wsgi", "asgi"]
+
+
+def oracle_syntax(case) -> Result:
+    """One form in one (well-formed) spelling of its part headers / of the request: the result must be the encoded
+    parts, however the body is cut - in particular inside the header blocks, where the spelling lives."""
+    r = Result()
+    form = case["form"]
+    rq = case.get("rq") or None
+    body = x.encode(form)
+    expected = x.expected_items(form)
+    n = len(body)
+    runs = 0
+    parts = [("whole", [])]
+    if n <= 1500:
+        parts += [("bytewise", list(range(1, n))), ("uniform", list(range(3, n, 3))), ("uniform", list(range(7, n, 7)))]
+    else:  # a very long name: the header block spans several 4 KiB chunks / one 64 KiB read
+        parts += [("uniform", list(range(4096, n, 4096))), ("uniform", list(range(65536, n, 65536)))]
+    for label, cuts in parts:
+        for which in ALL_OBSERVERS if rq is None else ("sync", "wsgi", "asgi"):  # a request variant concerns the request-level observers
+            if rq is None and label in ("bytewise", "uniform") and which in ("wsgi", "events-lazy") and n <= 1500:
+                continue  # budget: the whole body has been through them, the other five observers take the small chunks
+            runs += 1
+            check_one(r, form, body, expected, label, cuts, which, rq if which in ("wsgi", "asgi") else None)
+        if len(r.failures) >= 3:
+            break
+    if rq is None and not r.failures:
+        for s, e in x.header_spans(form, body):
+            offs = list(range(s + 1, e + 1))
+            if len(offs) > 400:
+                offs = offs[:30] + offs[30:-30:9973] + offs[-30:]
+            for c in offs:
+                for which in ("events", "sync"):
+                    runs += 1
+                    check_one(r, form, body, expected, "single", [c], which)
+                if len(r.failures) >= 3:
+                    break
+    if rq is not None and not r.failures:
+        for c in sorted({1, n // 3, n // 2, n - 1} - {0, n}):
+            for which in ("wsgi", "asgi"):
+                runs += 1
+                check_one(r, form, body, expected, "single", [c], which, rq)
+        for which in ("sync", "async", "asgi"):  # empty chunks / empty http.request messages: first, in the middle, last
+            runs += 1
+            check_one(r, form, body, expected, "empty-chunks", [0, n // 2, n // 2, n], which, rq if which == "asgi" else None)
+    r.weight = runs
+    r.nontrivial = True
+    r.label(case.get("label", "syntax").split(":")[0], case.get("label", "syntax"))
+    return r
+
+
+def oracle_align(case) -> Result:
+    """Chunk edges at every offset around every delimiter, for every boundary length and long transport padding."""
+    r = Result()
+    form = x.align_form(case)
+    body = x.encode(form)
+    expected = x.expected_items(form)
+    bnd = form["boundary"].encode("ascii")
+    n = len(body)
+    offs = set()
+    for s, e in ref.delimiter_spans(body, bnd):
+        offs.update(range(s - 3, e + len(form["padding"]) + 4))
+    offs = sorted(o for o in offs if 0 < o < n)
+    runs = 0
+    for which in ("events", "sync", "async", "wsgi", "asgi", "events-step"):
+        for label, cuts in (("whole", []), ("bytewise", list(range(1, n)))):
+            if label == "bytewise" and which in ("wsgi", "asgi") and not case.get("pairs"):
+                continue
+            runs += 1
+            check_one(r, form, body, expected, label, cuts, which)
+    for c in offs:
+        for cuts in ([c], [c, c + 1]) if case.get("pairs") else ([c],):
+            if cuts[-1] >= n:
+                continue
+            for which in ("events", "sync"):
+                runs += 1
+                check_one(r, form, body, expected, "single" if len(cuts) == 1 else "pair", cuts, which)
+        if len(r.failures) >= 3:
+            break
+    r.weight = runs
+    r.nontrivial = True
+    r.label(f"blen={case['blen']}", f"padding={len(case.get('padding', b''))}", f"content={case.get('content', 'near')}")
+    return r
+
+
+def oracle_big(case) -> Result:
+    """Bodies far larger than one read / one in-memory upload file, described by a compact spec."""
+    r = Result()
+    form = x.big_form(case)
+    body = x.encode(form)
+    expected = x.expected_items(form)
+    ctx = f"big body {case['label']} ({len(body)} bytes, parts {[(k, s) for k, s, _h in case['parts']]})"
+    runs = 0
+    for k, chunking in enumerate(case["chunkings"]):
+        cuts = x.chunk_cuts(len(body), chunking)
+        observers = [("sync", None), ("async", None), ("wsgi", None), ("asgi", None), ("events", None)]
+        if k == 0:  # the request-level variants on a body that takes several reads
+            observers += [("wsgi", {"body_first": True}), ("asgi", {"body_first": True}), ("wsgi", {"length": "absent"}), ("asgi", {"asgi_keys": "minimal"})]
+        for which, orq in observers:
+            runs += 1
+            check_one(r, form, body, expected, "-".join(str(c) for c in chunking), cuts, which, orq, real_loop=True, ctx=ctx)
+        if len(r.failures) >= 3:
+            break
+    r.weight = runs
+    r.nontrivial = True
+    r.label(case["label"])
+    return r
+
+
+SUBS = {"forms": oracle, "tiny": oracle_tiny, "syntax": oracle_syntax, "align": oracle_align, "big": oracle_big}
+
+
+# ---- random decoration of the generated forms with the alternative spellings (enumerated one at a time by `syntax`)
+
+_SX = st.fixed_dictionaries(
+    {},
+    optional={
+        "sep": st.sampled_from([";", ";  ", ";\t", " ; "]),
+        "colon": st.sampled_from([":", ":  ", ":\t"]),
+        "pcase": st.sampled_from(["upper", "title"]),
+        "dtype": st.sampled_from(["Form-Data", "FORM-DATA"]),
+        "order": st.just("fn"),
+        "token": st.just(True),
+        "extra": st.sampled_from([[["size", "3"]], [["x", '"y; z"']]]),
+        "extra_first": st.just(True),
+        "cd_pos": st.integers(1, 3),
+    },
+)
+_RQ = st.fixed_dictionaries(
+    {},
+    optional={
+        "ct": st.sampled_from(x.CT_STYLES),
+        "length": st.sampled_from(["absent", "chunked"]),
+        "body_first": st.just(True),
+        "asgi_keys": st.just("minimal"),
+    },
+)
+
+
+def _enc_ok(s, cs):
+    try:
+        return s.encode(cs).decode(cs) == s
+    except (UnicodeEncodeError, UnicodeDecodeError):
+        return False
+
+
+@st.composite
+def decorated_forms(draw):
+    form = draw(gen.forms(max_parts=5, max_pieces=6))
+    if draw(st.integers(0, 2)) == 0:
+        names = [nm for _l, nm in x.special_names(form["boundary"]) if len(nm) < 100 and _enc_ok(nm, form["charset"])]
+        for p in form["parts"]:
+            k = draw(st.integers(0, 3))
+            if k <= 1:
+                p["sx"] = draw(_SX)
+            if k >= 2 and names:
+                if p.get("filename") is not None and draw(st.booleans()):
+                    p["filename"] = draw(st.sampled_from(names))
+                else:
+                    p["name"] = draw(st.sampled_from(names))
+    return form
 
 
 def form_case():
-    return st.fixed_dictionaries({"form": gen.forms(max_parts=5, max_pieces=6), "cuts": gen.cut_lists(300)})
+    return st.fixed_dictionaries({"form": decorated_forms(), "cuts": gen.cut_lists(300)}, optional={"rq": _RQ})
 
 
 def tiny_cases():
@@ -353,6 +584,22 @@ def oracle_atheris(case) -> Result:
 
 SUBS["atheris"] = oracle_atheris
 
+def _drop_loop():
+    """Close this process's real event loop before worker processes are forked (gw.loop() makes a new one on demand).
+    A forked worker that garbage-collects the loop object it inherited closes it, and closing unregisters the loop's
+    self-pipe from the epoll object the worker SHARES with this process: from then on this process's loop is never
+    woken by its executor threads, and the first upload file that is written in a thread (sub-check big) waits for ever."""
+    lp = gw._LOOP
+    if lp is not None and not lp.is_closed():
+        lp.close()
+    gw._LOOP = None
+
+
+def _align_shard(rec, k, n):
+    """Thorough tier: every boundary length x alphabet x padding x content, spread over worker processes."""
+    core.drive_cases(rec, "align", [c for i, c in enumerate(x.align_cases(False)) if i % n == k], oracle_align)
+
+
 def run(rec, only=None):
     quick = rec.tier == "quick"
     cases = list(tiny_cases())
@@ -360,6 +607,18 @@ def run(rec, only=None):
         cases = cases[::3]
     core.drive_cases(rec, "tiny", cases, oracle_tiny)
     rec.exhaustive["tiny"] = True
+    core.drive_cases(rec, "syntax", x.syntax_cases(quick), oracle_syntax)
+    rec.exhaustive["syntax"] = True
+    if quick:
+        core.drive_cases(rec, "align", x.align_cases(True), oracle_align)
+    elif rec.only is None or "align" in rec.only:
+        _drop_loop()
+        core.run_sharded(rec, _align_shard, 16, min(16, core.ncpu()))
+    rec.exhaustive["align"] = True
+    core.drive_cases(rec, "big", x.big_cases(quick), oracle_big)
+    rec.exhaustive["big"] = True
+    if not quick:
+        _drop_loop()  # the thorough budget is split over forked workers
     core.drive_hypothesis(rec, "forms", form_case(), oracle, 250 if quick else 6000)
     rec.exhaustive["forms"] = False
     if not quick:
